@@ -33,7 +33,9 @@ def extrema_counts(p, band):
     d = np.diff(v)
     npk = int(np.sum((d[:-1] > 0) & (d[1:] < 0)))
     ntr = int(np.sum((d[:-1] < 0) & (d[1:] > 0)))
-    near = int(d.size > 0 and np.min(np.abs(d)) <= band)
+    # within rounding distance but NOT exactly equal: an exact tie is decided identically after reversal / rescaling
+    nz = np.abs(d[d != 0])
+    near = int(nz.size > 0 and np.min(nz) <= band)
     return npk, ntr, near
 
 
@@ -130,6 +132,9 @@ def _job(args):
         xo = {'pad_width': int(rng.randint(1, 5))}
         if rng.rand() < .25:
             xo['parabolic_extrema'] = True
+        if rng.rand() < .2:
+            # custom np.pad options (equivariant themselves, and different from the default median of one value)
+            xo['mag_pad_opts'] = [{'mode': 'mean', 'stat_length': 3}, {'mode': 'reflect'}, {'mode': 'median', 'stat_length': 3}][rng.randint(3)]
         if rng.rand() < .6:
             kind, c = 'scale', float(SCALES[rng.randint(len(SCALES))])
         else:
@@ -167,7 +172,7 @@ def _job(args):
             groups.append(prods)
             info.append({'fn': 'mask_sift', 'sig': kindsig, 'n': n, 'opts': {k: (list(v) if isinstance(v, tuple) else v) for k, v in o.items()}, 'envelope_opts': eo,
                          'extrema_opts': xo, 'transform': 'scale', 'c': c2, 'seed': seed, 'it': it, 'mask': {k: v for k, v in mk.items() if k.startswith('mask') or k == 'nphases'}})
-            r = {'kind': 'mask', 'need': 'bit' if is_pow2(c2) else 'close', 'c': c2, 'raised': int(isinstance(a, str) or isinstance(b, str)), 'ncols_a': 0, 'ncols_b': 0,
+            r = {'kind': 'mask', 'need': 'bit' if is_pow2(c2) else 'close', 'c': c2, 'raised': (0 if not (isinstance(a, str) or isinstance(b, str)) else (1 if (isinstance(a, str) and isinstance(b, str) and a == b) else 2)), 'ncols_a': 0, 'ncols_b': 0,
                  'rel': [], 'seed': seed, 'it': it, 'mask_amp_is_array': int(not np.isscalar(amp)), 'mode': mk['mask_amp_mode']}
             if not r['raised']:
                 r['ncols_a'], r['ncols_b'] = int(a.shape[1]), int(b.shape[1])
